@@ -757,3 +757,24 @@ def p18_handle_delegation(ctx):
         idx = [bb for bb, t in b.calls() if bb in b.live_blocks() and (strip_generics(t.get("callee")) or "").startswith("dashmap::DashMap::")]
         r.add(f, "does not consult the index outside the writer lock", not idx, where(b, idx[0]) if idx else short_span(b.span))
     return r
+
+
+def p19_sync_chain(ctx):
+    r = RuleResult("P19", "the sync entry points force the active file to disk unconditionally: every Ok path of Handle::sync (when open) reaches Writer::sync, every Ok path of Writer::sync reaches LogWriter::sync on self.writer, every Ok path of LogWriter::sync reaches File::sync_all/sync_data — no 'nothing new to sync' shortcut can skip the fsync of a freshly rotated file", floor=3)
+    prog = ctx.prog
+    chain = [
+        ("storage::bitcask::Handle::sync", lambda t: is_call_to(t, "storage::bitcask::Writer::sync"), "Writer::sync"),
+        ("storage::bitcask::Writer::sync", lambda t: is_call_to(t, "storage::bitcask::log::LogWriter::sync"), "LogWriter::sync"),
+        ("storage::bitcask::log::LogWriter::sync", lambda t: is_call_to(t, "std::fs::File::sync_all", "std::fs::File::sync_data"), "File::sync_all"),
+    ]
+    for fn, pred, nm in chain:
+        b = prog.one(fn)
+        hits = {bb for bb, t in b.calls() if bb in b.live_blocks() and pred(t)}
+        # Ok returns reachable without passing a hit (for Handle::sync the closed path returns Err)
+        classes = {c for c, d, rb in ret_classes(b, 0, lambda e: e.kind == "unwind" or (e.src in hits and e.kind == "ret"))}
+        leak = [c for c in classes if c not in ("err", "unwind")]
+        r.add(fam_name(b), "every Ok path reaches %s" % nm, bool(hits) and not leak, where(b, sorted(hits)[0]) if hits else short_span(b.span), "" if (hits and not leak) else "an Ok return is reachable without %s: a tick of the sync loop (or a sync=always write) can leave data unsynced" % nm)
+    wb = prog.one("storage::bitcask::Writer::sync")
+    for _, bb, t in calls_in([wb], "storage::bitcask::log::LogWriter::sync"):
+        r.add(fam_name(wb), "syncs self.writer (the active file)", arg_path(wb, t, 0) == "self.writer", where(wb, bb), str(arg_path(wb, t, 0)))
+    return r
